@@ -315,6 +315,9 @@ class ReconnH(explore.Harness):
         if self.closed_at is not None and all(t.done() for t in self.close_tasks) and self.close_tasks and self._no_trigger_since(self.closed_at):
             if opened:
                 self.viol.append(("c11:connection-open-after-close", {"open": [c.cid for c in opened], "t": now}))
+        if self.shutdown_at is not None and all(t.done() for t in self.close_tasks) and opened and not self._pending_att():
+            # shutdown() is final: whatever arrives afterwards (announcements, callers), the pairing holds no connection any more
+            self.viol.append(("c11:connection-open-after-shutdown", {"open": [c.cid for c in opened], "t": now, "shutdown_at": self.shutdown_at}))
         # C10: which addresses a round starts with (no advertised address is excluded for good)
         for idx, a in enumerate(self.net.attempts):
             if a.get("elig_checked"):
